@@ -3,7 +3,7 @@ import json, os, random
 from vlib import *
 
 BASE = dict(SubIds={1}, ItemIds={1}, Nodes={1}, Vals={0, 1}, ReqTimeout=30,
-            DevKeepAlive15=False, DevNoLtReset=False, DevDropOnNone=False, DevPrioAsc=False, DevExpirePanic=False, DevNegPanic=False,
+            DevKeepAlive15=False, DevNoLtReset=False, DevDropOnNone=False, DevPrioAsc=False, DevExpirePanic=False, DevNegPanic=False, DevShrinkPanic=False,
             Acts=set(), Scripts=Tla("{}"), KAs={1}, LtExtra={0}, Ens={True}, Prios={0}, Itvs={1},
             QSizes={1}, Dolds={True}, Samps={-1}, Dts={1}, Hints={0}, TsOffs={0}, MaxDepth=10, MaxPubs=99,
             MaxWrites=0, MaxTicks=99, AckModes={"none"})
